@@ -402,6 +402,7 @@ func (c17) Run(t *testing.T, cs Case, trace bool) *Outcome {
 					out.probe("accepted")
 				} else {
 					out.probe("rejected")
+					out.fault("registration:invalid-declaration-rejected")
 				}
 			case "update-inputs":
 				p := probes[step.Target]
@@ -427,6 +428,7 @@ func (c17) Run(t *testing.T, cs Case, trace bool) *Outcome {
 					out.probe("accepted")
 				} else {
 					out.probe("rejected")
+					out.fault("registration:invalid-declaration-rejected")
 				}
 			}
 			// let the system run for a virtual second (the background churn keeps events flowing) and compare the graph
